@@ -186,4 +186,26 @@ inline std::string phrase_from_coeffs(const Lang& l, const std::array<unsigned, 
 inline std::string strip_marks(const std::string& w) { std::vector<uint32_t> o; for (uint32_t c : codepoints(nfkd(w))) if (!is_mark(c)) o.push_back(c); return utf8(o); }
 inline size_t letters(const std::string& w) { size_t n = 0; for (uint32_t c : codepoints(nfkd(w))) if (!is_mark(c)) n++; return n; }
 
+// ---------------------------------------------------------------- self-check against the repository's published vectors (tests/tests.c)
+// A model error must not silently align with the code: the model has to reproduce the three
+// published vectors before any conformance check trusts it.
+inline std::string self_check() {
+    const Golden& g = Golden::get();
+    auto sd = [](const char* h, uint64_t t, unsigned f) { Seed s; std::string b = vf::unhex(h); memcpy(s.secret.data(), b.data(), 19); s.secret[18] &= 0x3F; s.birthday = birthday_index(t); s.features = f; return s; };
+    Seed s1 = sd("dd76e7359a0ded37cd0ff0f3c829a5ae0167f3", 1638446400ull, 0), s2 = sd("5a2b02df7db21fcbe6ec6df137d54c7b20fd2b", 3118651200ull, 0), s3 = sd("67b936dfa4da6ae8d3b3cdb3b937f4027b0e3b", 4305268800ull, 1);
+    if (phrase(*g.by_name("English"), s1, 0) != "raven tail swear infant grief assist regular lamp duck valid someone little harsh puppy airport language") return "English vector";
+    if (phrase(*g.by_name("Spanish"), s2, 0) != "eje fin parte c\xc3\xa9lebre tab\xc3\xba pesta\xc3\xb1""a lienzo puma prisi\xc3\xb3n hora regalo lengua existir l\xc3\xa1piz lote sonoro") return "Spanish vector";
+    auto hx = [](const std::array<uint8_t, 32>& a) { return vf::hex(a.data(), 32); };
+    if (hx(keygen_password(s1)) != "dd76e7359a0ded37cd0ff0f3c829a5ae01673300000000000000000000000000") return "pw 1";
+    if (hx(keygen_salt(s1, 0)) != "504f4c5953454544206b657900ffffff00000000010000000000000000000000") return "salt 1";
+    if (hx(keygen_salt(s2, 0)) != "504f4c5953454544206b657900ffffff00000000330200000000000000000000") return "salt 2";
+    if (hx(keygen_password(s3)) != "67b936dfa4da6ae8d3b3cdb3b937f4027b0e3b00000000000000000000000000") return "pw 3";
+    if (hx(keygen_salt(s3, 1)) != "504f4c5953454544206b657900ffffff01000000f70300000100000000000000") return "salt 3";
+    auto cs = crypt_salt(); if (vf::hex(cs.data(), 16) != "504f4c5953454544206d61736b00ffff") return "mask salt";
+    if (!(unpack(pack(s3)) == s3)) return "pack/unpack";
+    if (load_verdict(image(s3).data(), 1) != OK || load_verdict(image(s3).data(), 0) != UNSUPPORTED) return "image verdict";
+    return "";
+}
+inline void require_self_check() { std::string m = self_check(); if (!m.empty()) { fprintf(stderr, "MODEL-ERROR: reference model does not reproduce the published vector: %s\n", m.c_str()); exit(2); } }
+
 } // namespace model
